@@ -1148,14 +1148,25 @@ func c29Agreement(o *Outcome, w *World, sc *C29Scn) {
 	}
 }
 
-func genC29(r *simrt.Rand, tier string) any {
-	sc := &C29Scn{Cached: r.Pct(40), Workers: 1 + r.Int(4), Sched: RandSched(r)}
+func genC29(r *simrt.Rand, tier string) any { return genC29Mode(r, tier, r.Pct(40)) }
+
+// genC29Mode draws a scenario for the given cache mode (peeks at other clients' names, the hot-object motif
+// and backend errors exist only with caches enabled).
+func genC29Mode(r *simrt.Rand, tier string, cached bool) any {
+	sc := &C29Scn{Cached: cached, Workers: 1 + r.Int(4), Sched: RandSched(r)}
 	sc.Sched.HorizonS = 900
 	nc := 2 + r.Int(3)
 	budget := 14
+	long := cached && r.Pct(35) // no linearizability search in cached mode: histories may be longer
+	if long {
+		budget = 44
+	}
 	for ci := 0; ci < nc; ci++ {
 		sc.Pre = append(sc.Pre, r.Pct(50))
 		n := 2 + r.Int(4)
+		if long {
+			n = 6 + r.Int(9)
+		}
 		if n > budget-2*(nc-ci-1) {
 			n = budget - 2*(nc-ci-1)
 		}
@@ -1246,13 +1257,15 @@ func genC29(r *simrt.Rand, tier string) any {
 		}
 		for ci := 1; ci < len(sc.Clients); ci++ {
 			for i := range sc.Clients[ci] {
-				if r.Pct(70) {
+				if r.Pct(55) {
 					sc.Clients[ci][i] = C29Op{Op: "peek", Dir: 0, Name: 0, Peer: 0, Size: -1}
 					if r.Pct(30) {
 						sc.Clients[ci][i].Off, sc.Clients[ci][i].Len = r.Int(30), 10+r.Int(50)
 					}
-				} else if r.Pct(40) {
-					sc.Clients[ci][i] = C29Op{Op: "readdirplus", Dir: 0, Size: -1}
+				} else if r.Pct(70) {
+					// ... and list its directory (a listing read just before the last create/remove in it must not
+					// be what the directory cache keeps)
+					sc.Clients[ci][i] = C29Op{Op: []string{"readdirplus", "readdir"}[r.Int(2)], Dir: 0, Size: -1}
 				}
 			}
 		}
